@@ -166,8 +166,33 @@ static void one(Case& cs) {
 
 // ---------------------------------------------------------------------------------------------------------------- herk / syrk / trsm
 #if C13_G == 3
-static long ncases() { return 3L * 4 * 4 * 4 * 4 * 2 * 3; }
+static long nbase() { return 3L * 4 * 4 * 4 * 4 * 2 * 3; }
+static long ncases() { return nbase() + (CPLX ? 4L * 4 * 4 * 4 * 2 * 4 * 4 : 0); }
+// trsm with hermitian (conjugate-transposed) views of A and/or B and with complex scalars: op(A) X = alpha op(B), X overwrites op(B)
+template<class TT> void trsm_ext(L k) {
+	if constexpr(!std::is_arithmetic_v<TT>) {
+		auto take = [&](L n) { L r = k % n; k /= n; return r; };
+		int const ka = int(take(4)), kc = int(take(4)); L const n = take(4), kk = take(4); int const uplo = int(take(2)), form = int(take(4)), sc = int(take(4));
+		bool const hA = (form & 1) != 0, hB = (form & 2) != 0; static char const* FN[] = {"A,B", "H(A),B", "A,H(B)", "H(A),H(B)"};
+		static TT const ALC[] = {TT(R(1), R(0)), TT(R(2), R(3)), TT(R(0), R(-1)), TT(R(-2), R(1))}; TT const alpha = ALC[sc];
+		std::string const lay = std::string(MK[ka]) + "->" + MK[kc]; std::string const szs = szc(n) + szc(kk); bool const deg = (n <= 1 || kk <= 1);
+		Buf<TT> RA, RB; auto&& As = mkm(RA, ka, n, n, POISON); auto&& Bs = hB ? mkm(RB, kc, kk, n, OUTFILL) : mkm(RB, kc, n, kk, OUTFILL);
+		auto Aat = [&](L i, L j) -> TT { return hA ? std::conj(TT(As[j][i])) : TT(As[i][j]); }; auto Bat = [&](L i, L j) -> TT { return hB ? std::conj(TT(Bs[j][i])) : TT(Bs[i][j]); };
+		for(L i = 0; i < n; ++i) for(L j = 0; j < n; ++j) { bool in = uplo ? (j >= i) : (j <= i); TT v = in ? (i == j ? TT(R(i % 2 ? 2 : 1)) : val<TT>(i, j, 1)) : POISON; if(hA) As[j][i] = in ? std::conj(v) : v; else As[i][j] = v; }
+		std::vector<TT> X(static_cast<std::size_t>(n * kk), TT{}); for(L i = 0; i < n; ++i) for(L j = 0; j < kk; ++j) X[std::size_t(i * kk + j)] = val<TT>(i, j, 2);
+		for(L i = 0; i < n; ++i) for(L j = 0; j < kk; ++j) { TT s{}; for(L p = 0; p < n; ++p) { bool in = uplo ? (p >= i) : (p <= i); if(in) s += Aat(i, p) * X[std::size_t(p * kk + j)]; } if(hB) Bs[j][i] = std::conj(s); else Bs[i][j] = s; }
+		auto sa = RA.s; std::string const key = std::string("C13:trsm:") + TN + ":" + lay + ":" + FN[form] + (sc ? ":complex-alpha:" : ":alpha=1:") + (deg ? "degenerate" : "general");
+		describe(std::string("trsm ") + TN + " " + FN[form] + " " + lay + (uplo ? " upper" : " lower") + " alpha#" + std::to_string(sc) + " n,k=" + std::to_string(n) + "," + std::to_string(kk)); sig_mix("trsm-ext"); sig_mix(lay.c_str()); sig_mix(szs.c_str()); sig_mix(std::uint64_t(form * 4 + sc)); nontrivial(n > 0 && kk > 0); op((std::string("trsm:") + FN[form] + ":" + lay + ":" + szs).c_str());
+		auto const fl = uplo ? blas::filling::upper : blas::filling::lower;
+		Outcome o = classify([&] { switch(form) { case 0: blas::trsm(blas::side::left, fl, alpha, As, std::move(Bs)); break; case 1: blas::trsm(blas::side::left, fl, alpha, blas::H(As), std::move(Bs)); break; case 2: blas::trsm(blas::side::left, fl, alpha, As, blas::H(Bs)); break; default: blas::trsm(blas::side::left, fl, alpha, blas::H(As), blas::H(Bs)); break; } }, [&]() -> Outcome {
+			bool ok = true; for(L i = 0; i < n; ++i) for(L j = 0; j < kk; ++j) { TT const want = alpha * X[std::size_t(i * kk + j)]; ok &= std::abs(Bat(i, j) - want) <= R(1e-4) * (R(1) + std::abs(want)); }
+			for(L i = 0; i < n; ++i) for(L j = 0; j < kk; ++j) { if(hB) Bs[j][i] = OUTFILL; else Bs[i][j] = OUTFILL; } long stray = 0; for(auto const& e : RB.s) stray += !(e == OUTFILL);
+			if(stray) return {"oob-write", "elements outside B were written"}; if(!(RA.s == sa)) return {"input-modified", "A was modified"}; if(!ok) return {"wrong", "trsm solution differs from alpha*inv(op(A))*op(B), n,k=" + std::to_string(n) + "," + std::to_string(kk)}; return {"ok", ""}; });
+		count(std::string("trsm:") + FN[form] + (sc ? ":complex-alpha:" : ":alpha=1:") + o.sym); report(key, o);
+	} else { (void)k; }
+}
 static void one(Case& cs) {
+	if(cs.k >= nbase()) { trsm_ext<T>(cs.k - nbase()); return; }
 	L k = cs.k; auto take = [&](L n) { L r = k % n; k /= n; return r; };
 	int const which = int(take(3)), ka = int(take(4)), kc = int(take(4)); L const n = take(4), kk = take(4); int const uplo = int(take(2)), sc = int(take(3));
 	static R const AL[] = {R(1), R(2), R(-1)}; static R const BE[] = {R(0), R(1), R(2)};
